@@ -690,3 +690,23 @@ def number_classes(lib):
             for p in f.params:
                 if p.kind == "object":
                     p.clsid = idx[p.ocls]
+
+
+def clash_lualib(name="luaclash"):
+    """Two wrapped classes with the same unqualified name in different namespaces and NO format overrides:
+    every default Lua/C name of a class is built from the unqualified name only."""
+    lib = LuaLib(name)
+    k1, k2 = "ca::Node", "cb::Node"
+    c1 = _mk(lib, "ctor", "ctor", k1, [[]], [k1])
+    dep = _mk(lib, "depth", "method", k1, [[]], ["int"])
+    c2 = _mk(lib, "ctor", "ctor", k2, [[]], [k2])
+    wid = _mk(lib, "width", "method", k2, [[]], ["int"])
+    lib.nss = [Ns("ca", classes=[(k1, c1 + dep)]), Ns("cb", classes=[(k2, c2 + wid)])]
+    visit = _mk(lib, "visit", "free", None, [[(k1 + " *", None)]], ["int"])
+    measure = _mk(lib, "measure", "free", None, [[(k2 + " *", None)]], ["int"])
+    lib.late_free = visit + measure
+    lib.groups += [Group("Node", "ctor", k1, c1, scope="ca::"), Group("depth", "method", k1, dep, scope="ca::"),
+                   Group("Node", "ctor", k2, c2, scope="cb::"), Group("width", "method", k2, wid, scope="cb::"),
+                   Group("visit", "free", None, visit), Group("measure", "free", None, measure)]
+    number_classes(lib)
+    return lib
